@@ -39,8 +39,11 @@ type wireResp struct {
 }
 
 func overlayFor(id, harnessDir string, u Unit) (map[string]string, error) {
+	// the harness runtime and helper packages (never written under /repo)
 	ov := map[string]string{
-		filepath.Join(repoDir, "internal/verifrt/verifrt.go"): filepath.Join(verifDir, "rt/verifrt/verifrt.go"),
+		filepath.Join(repoDir, "internal/verifrt/verifrt.go"):     filepath.Join(verifDir, "rt/verifrt/verifrt.go"),
+		filepath.Join(repoDir, "internal/verifrt/symfs/symfs.go"): filepath.Join(verifDir, "rt/symfs/symfs.go"),
+		filepath.Join(repoDir, "internal/verifrt/fake/fake.go"):   filepath.Join(verifDir, "rt/fake/fake.go"),
 	}
 	for _, f := range u.Files {
 		src := filepath.Join(harnessDir, f)
